@@ -5,8 +5,8 @@ From Coq Require Import List NArith Lia ZifyBool ZifyNat ZifyN Bool.
 Import ListNotations.
 Open Scope N_scope.
 
-Definition byte := N.
-Definition bytes := list N.
+Notation byte := N (only parsing).
+Notation bytes := (list N) (only parsing).
 
 Definition blen (b : bytes) : N := N.of_nat (length b).
 Definition wf_bytes (b : bytes) : Prop := Forall (fun x => x < 256) b.
